@@ -464,6 +464,7 @@ class Machine:
         self.violations = []
         self.vcount = {}
         self.vcfg = {}  # violation key -> set of tuples of options that were on
+        self.cfg_decided = set()  # option fields some branch depended on
         self.vdef = {}  # violation key -> {True, False}: default-options reference still alive / already rejecting
         self.veof = {}  # violation key -> {True, False}: seen on paths with / without an observed end of input
         self.stats = {"steps": 0, "forks": 0}
@@ -1726,6 +1727,7 @@ class Machine:
                     s.env[name] = val
                 return f
 
+            self.cfg_decided.add(name)
             raise Fork([("%s=false" % name, setv(False)), ("%s=true" % name, setv(True))], "environment choice")
         if k in ("wtest", "wlane", "word", "bitv"):
             from . import lanes
